@@ -29,8 +29,9 @@ from .base import (
     NostrQuery,
     ValidationError,
 )
+from ..auth import Action
 from ..config import Config
-from ..errors import StorageError
+from ..errors import StorageError, AuthenticationError
 
 
 # ids: b'\x00<32 bytes of id>'
@@ -671,6 +672,9 @@ class LMDBStorage(BaseStorage):
             raise StorageError("invalid: Bad JSON")
 
         await self.validate_event(event, Config)
+        # check authentication
+        if not await self.authenticator.can_do(auth_token, Action.save.value, event):
+            raise AuthenticationError("restricted: permission denied")
         # the event is acknowledged before the writer thread stores it,
         # so make sure now that it can be stored
         self.check_storable(event)
